@@ -480,7 +480,15 @@ func checkLoopSkipsOnlyNil(r *Run, p *Program, rule string, f *ssa.Function) {
 				continue
 			}
 			// this edge avoids `first`: it must be the nil test or the loop bound
-			if isNilTestOfSegElem(c) || isLoopBound(c) || errNonNilEdge(c) != nil {
+			if isNilTestOfSegElem(c) {
+				// ... and skipping a nil entry must go on with the next entry, not leave the loop
+				if !sameCycle(b.Succs[k], first.Block()) && b.Succs[k] != first.Block() {
+					bad = true
+					r.bad(rule, funcKey(f)+":skips-only-nil", p.Pos(c.If.Cond.Pos()), "the loop over datalog.segments stops at the first nil entry instead of skipping it: after compaction freed a lower segment id every segment behind the hole is left unsynced, unclosed and without its meta file")
+				}
+				continue
+			}
+			if isLoopBound(c) || errNonNilEdge(c) != nil {
 				continue
 			}
 			bad = true
